@@ -39,7 +39,10 @@ impl Opts {
     }
 
     pub fn mockable(&self) -> Mockable {
-        if (self.unimock.is_some() && self.mock_api.is_some()) || self.mockall.is_some() {
+        let unimock = self.default_option(self.unimock, false).0;
+        let mockall = self.default_option(self.mockall, false).0;
+
+        if (unimock && self.mock_api.is_some()) || mockall {
             Mockable::Yes
         } else {
             Mockable::No
